@@ -29,7 +29,7 @@ def run_check(tier):
         part = mp.gen("MC_LoadScript", {"Mode": '"fields"', "MaxOps": 2, "Widths": ws, "Pads": mp.tla_set(ps)},
                       ["SentinelIntact", "UnchangedOnFailure", "Export"], "fields-w8-p%d-%s" % (ps[0], ws[1]), chk, timeout=3000, xmx="8g")
         for lo in range(0, len(part), 50000):          # bounded memory: observations of 50k scenarios x 5 media at a time
-            pp = mp.replay(part[lo:lo + 50000], mp.MEDIA_SEEKABLE + ["nonseek"], 8, "f8")
+            pp = mp.replay(part[lo:lo + 50000], ["mem", "sstream", "short3", "nonseek"] if quick else mp.MEDIA_SEEKABLE + ["nonseek"], 8, "f8")
             mp.judge(chk, pp, "MsgPack scripted load")
             mp.validate_scope_states(chk, pp, "MsgPack scripted load")
             chk.add_cases(len(pp), validated=len(pp))
